@@ -487,7 +487,9 @@ fn run_part(run: &mut Run) {
         "histories" => {
             let m = WithAlphabet { acts: alphabet(tier.pick(1, 2), true) };
             run.note(format!("reduced alphabet: {} actions", m.acts.len()));
-            run.explore("histories", "all action sequences of length 2 (thorough 3 over depth<=1 stacks, 2 over depth<=2) over the reduced alphabet from the 16 initial states, deduplicated on the parent's pixel map", &m, inits(), 2);
+            let stats = run.explore("histories", "all action sequences of length 2 (thorough 3 over depth<=1 stacks, 2 over depth<=2) over the reduced alphabet from the 16 initial states, deduplicated on the parent's pixel map", &m, inits(), 2);
+            // second engine over the same transition function: must see the same state space
+            run.cross_check_stateright("histories", std::sync::Arc::new(m), inits(), 2, &stats);
             if tier.is_thorough() {
                 let m = WithAlphabet { acts: alphabet(1, true) };
                 run.explore("histories-3", "all action sequences of length 3 over the reduced alphabet with stacks of depth <= 1", &m, inits(), 3);
